@@ -96,6 +96,52 @@ mod verif_replay_c13_headers {
         let r = tokio::spawn(async move { super::get::<serde_json::Value, _>(&url, &std::collections::HashMap::new(), None, None, |_| {}).await.is_ok() }).await;
         assert!(r.is_ok(), "the response reader panicked on a one-byte UTF-16 body frame");
     }
+    #[test]
+    fn c13_canonical_headers_with_blank_and_empty_values() {
+        // every value a client can send: empty, only blanks / tabs, padded on either side, one character
+        for v in ["", " ", "\\t", " \\t \\t ", " a", "a ", " a b ", "a"] {
+            let mut headers = hyper::HeaderMap::new();
+            headers.insert("x-verif", hyper::header::HeaderValue::from_str(v).unwrap());
+            headers.append("x-verif-2", hyper::header::HeaderValue::from_str(v).unwrap());
+            let r = std::panic::catch_unwind(|| super::headers_to_canonicalized_string(&headers));
+            assert!(r.is_ok(), "headers_to_canonicalized_string panicked on the header value {:?}", v);
+        }
+    }
+    #[tokio::test(flavor = "multi_thread", worker_threads = 2)]
+    async fn c13_utf16_body_in_frames_of_any_length() {
+        use std::io::{Read, Write};
+        // a UTF-16LE JSON body delivered in two or three chunked frames, cut at odd and even offsets
+        let body: Vec<u8> = r#"{"a":"bcdefghij"}"#.encode_utf16().flat_map(|u| u.to_le_bytes()).collect();
+        for cuts in [vec![3usize], vec![1], vec![5], vec![17], vec![18], vec![8], vec![3, 6], vec![1, 2], vec![2, 9], vec![7, 8]] {
+            let listener = std::net::TcpListener::bind("127.0.0.1:0").unwrap();
+            let port = listener.local_addr().unwrap().port();
+            let body = body.clone();
+            let cuts2 = cuts.clone();
+            let server = std::thread::spawn(move || {
+                let (mut stream, _) = listener.accept().unwrap();
+                let mut buf = [0u8; 4096];
+                let _ = stream.read(&mut buf);
+                stream.write_all(b"HTTP/1.1 200 OK\\r\\nContent-Type: application/json; charset=utf-16\\r\\nTransfer-Encoding: chunked\\r\\n\\r\\n").unwrap();
+                let mut bounds = vec![0usize];
+                bounds.extend(cuts2.iter().cloned());
+                bounds.push(body.len());
+                for w in bounds.windows(2) {
+                    let part = &body[w[0]..w[1]];
+                    if part.is_empty() { continue; }
+                    stream.write_all(format!("{:x}\\r\\n", part.len()).as_bytes()).unwrap();
+                    stream.write_all(part).unwrap();
+                    stream.write_all(b"\\r\\n").unwrap();
+                    stream.flush().unwrap();
+                    std::thread::sleep(std::time::Duration::from_millis(50));
+                }
+                stream.write_all(b"0\\r\\n\\r\\n").unwrap();
+            });
+            let url: hyper::Uri = format!("http://127.0.0.1:{}/x", port).parse().unwrap();
+            let r = tokio::spawn(async move { super::get::<serde_json::Value, _>(&url, &std::collections::HashMap::new(), None, None, |_| {}).await.is_ok() }).await;
+            let _ = server.join();
+            assert!(r.is_ok(), "the response reader panicked on a UTF-16 body delivered in frames cut at {:?}", cuts);
+        }
+    }
 }
 '''
 
@@ -105,6 +151,32 @@ def explore_site(rep, ctx, name, path, loop_bound=2, setup=None, crate="agent"):
     paths = eng.explore(path, setup=setup)
     rep.functions_encoded.append(("proxy_agent_shared::" if crate == "shared" else "") + path)
     pan = [r for r in paths if r.status == "panic"]
+    # a helper introduced at a site (its own loops, indexing, arithmetic) is part of the site: functions that did not exist when the
+    # sites were enumerated and that the exploration left uninterpreted are explored on their own, arguments unconstrained (a panic path
+    # found there counts only if the native witnesses reproduce it)
+    import callgraph
+    cg = callgraph.CallGraph(ctx.idx)
+    cg.set_src(ctx.src)
+    bf = os.path.join(os.path.dirname(os.path.abspath(__file__)), "baseline_fn_names.txt")
+    baseline = set(open(bf).read().split()) if os.path.exists(bf) else set()
+    for callee in sorted(eng.uninterpreted):
+        if callgraph.last_seg(callee) in baseline:
+            continue
+        try:
+            c = cg.resolve(callee, path)
+        except Exception:
+            c = []
+        if len(c) != 1:
+            continue
+        hp = next(iter(c))
+        try:
+            e2 = ctx.engine(loop_bound=loop_bound, max_paths=5000, timeout=120)
+            hps = e2.explore(hp)
+        except Inconclusive:
+            continue
+        rep.functions_encoded.append(hp + " [helper new at this site, stand-alone]")
+        paths = paths + hps
+        pan = pan + [r for r in hps if r.status == "panic"]
     return paths, pan
 
 
@@ -156,6 +228,7 @@ def check(rep, tier, seed):
                             piece_closure = cl.body_path
     rep.functions_encoded.append(rb)
     eng_b = ctx.engine(loop_bound=1, max_paths=20000)
+    eng_b.auto_inline = ctx.new_function_auto()
     body_paths = eng_b.explore(rb)
     results["utf16body"] = (body_paths, [r for r in body_paths if r.status == "panic" and "unwrap" not in r.note])
     clo = [piece_closure] if piece_closure else [p for p in ctx.idx.files if p.startswith(rb + "::{closure")]
@@ -201,9 +274,11 @@ def check(rep, tier, seed):
         res, out = replay_mod.run_rust_tests("azure-proxy-agent", inj, "verif_replay_c13", no_args=True)
         res = res or {}
         native["status"] = res.get("c13_get_module_status_long_multibyte_message")
-        native["headers"] = res.get("c13_canonical_headers_with_obs_text_value")
+        hs = (res.get("c13_canonical_headers_with_obs_text_value"), res.get("c13_canonical_headers_with_blank_and_empty_values"))
+        native["headers"] = "FAILED" if "FAILED" in hs else hs[0]
         native["utf16"] = res.get("c13_odd_length_utf16_body")
-        native["utf16body"] = "FAILED" if "FAILED" in (res.get("c13_odd_length_utf16_body"), res.get("c13_one_byte_utf16_body")) else res.get("c13_one_byte_utf16_body")
+        us = (res.get("c13_odd_length_utf16_body"), res.get("c13_one_byte_utf16_body"), res.get("c13_utf16_body_in_frames_of_any_length"))
+        native["utf16body"] = "FAILED" if "FAILED" in us else res.get("c13_one_byte_utf16_body")
         files["status"] = save_replay("C13", "get_module_status.rs", "// append to proxy_agent/src/shared_state/agent_status_wrapper.rs\n" + TEST_STATUS)
         files["headers"] = files["utf16"] = files["utf16body"] = save_replay("C13", "hyper_client.rs", "// append to proxy_agent/src/common/hyper_client.rs\n" + TEST_HEADERS)
     if "looptime" in need:
